@@ -443,7 +443,7 @@ impl VersionManager {
         // For levels that require synchronization, acquire version under lock
         let (version, min_version) = if self.state.concurrency_level.requires_synchronization() {
             #[cfg(zipora_verif)]
-            sched_point(pt::R_LOCK);
+            verif_sched::sched_lock_point(pt::R_LOCK, &self.state.token_chain_mutex);
             let _lock = self.state.token_chain_mutex.lock().map_err(|_| {
                 ZiporaError::system_error("Failed to acquire token chain mutex for reader")
             })?;
@@ -511,7 +511,7 @@ impl VersionManager {
         // Acquire version under lock for synchronized levels
         let (version, min_version) = if self.state.concurrency_level.requires_synchronization() {
             #[cfg(zipora_verif)]
-            sched_point(pt::W_LOCK);
+            verif_sched::sched_lock_point(pt::W_LOCK, &self.state.token_chain_mutex);
             let _lock = self.state.token_chain_mutex.lock().map_err(|_| {
                 ZiporaError::system_error("Failed to acquire token chain mutex for writer")
             })?;
@@ -646,7 +646,7 @@ impl VersionState {
         // can never exceed the version of a live token.  (The mutex guards no data, so a
         // poisoned lock is still usable.)
         #[cfg(zipora_verif)]
-        sched_point(pt::TA_LOCK);
+        verif_sched::sched_lock_point(pt::TA_LOCK, &self.token_chain_mutex);
         let _lock = self
             .token_chain_mutex
             .lock()
